@@ -55,8 +55,18 @@ def point(c):
     raise KeyError(f)
 
 
+def dimsrange(c):
+    out = []
+    for k in range(c["lo"], c["hi"]):
+        w, h = geometry.standard_system_dimensions(3 * k)
+        out += [int(w), int(h)]
+    return ["ok", out]
+
+
 def run_case(c):
     try:
+        if c["k"] == "dimsrange":
+            return dimsrange(c)
         if c["k"] == "machine":
             return machine(c)
         if c["k"] == "point":
